@@ -60,6 +60,12 @@ type Term struct {
 	args []*Term
 	name string // var / UF name
 	id   int
+	ubv  uint64 // unsigned upper bound (valid if ubOK)
+	ubOK bool
+	vs   []int32 // sorted ids of the variables / UF symbols occurring in the term
+	vsOK bool
+	sv   *Term // support: the single variable (if ns == 2)
+	ns   uint8 // 0 unknown, 1 none, 2 one variable, 3 many
 }
 
 const noArg = -1 << 62
@@ -82,13 +88,121 @@ type Ctx struct {
 	False  *Term
 	ufs    map[string]string // UF name -> declaration
 	vars   []*Term
+
+	subst    map[*Term]*Term
+	ufIDs    map[string]int32
+	luts     map[string][]uint64
+	lutByKey map[string]*lutEntry
+	nCanon   int
 }
 
 func NewCtx() *Ctx {
-	c := &Ctx{tab: map[termKey]*Term{}, consts: map[termKey]*Term{}, ufs: map[string]string{}}
+	c := &Ctx{tab: map[termKey]*Term{}, consts: map[termKey]*Term{}, ufs: map[string]string{}, ufIDs: map[string]int32{}, luts: map[string][]uint64{}, lutByKey: map[string]*lutEntry{}}
 	c.True = c.mk(&Term{op: OpConst, w: 0, k: 1})
 	c.False = c.mk(&Term{op: OpConst, w: 0, k: 0})
 	return c
+}
+
+// varsOf: sorted set of variable ids (UF symbols get ids from 1<<30 upwards).
+func (c *Ctx) varsOf(t *Term) []int32 {
+	if t.vsOK {
+		return t.vs
+	}
+	var out []int32
+	switch t.op {
+	case OpConst:
+	case OpVar:
+		out = []int32{int32(t.id)}
+	default:
+		if t.op == OpUF && c.luts[t.name] == nil {
+			id, ok := c.ufIDs[t.name]
+			if !ok {
+				id = int32(1<<30 + len(c.ufIDs))
+				c.ufIDs[t.name] = id
+			}
+			out = []int32{id}
+		}
+		for _, a := range t.args {
+			out = mergeSorted(out, c.varsOf(a))
+		}
+	}
+	t.vs, t.vsOK = out, true
+	return out
+}
+
+func mergeSorted(a, b []int32) []int32 {
+	if len(a) == 0 {
+		return b
+	}
+	if len(b) == 0 {
+		return a
+	}
+	out := make([]int32, 0, len(a)+len(b))
+	i, j := 0, 0
+	for i < len(a) && j < len(b) {
+		switch {
+		case a[i] < b[j]:
+			out = append(out, a[i])
+			i++
+		case a[i] > b[j]:
+			out = append(out, b[j])
+			j++
+		default:
+			out = append(out, a[i])
+			i++
+			j++
+		}
+	}
+	out = append(out, a[i:]...)
+	out = append(out, b[j:]...)
+	return out
+}
+
+// norm applies the equalities learnt from the path condition (term -> constant).
+func (c *Ctx) norm(t *Term) *Term {
+	if len(c.subst) == 0 || t.op == OpConst {
+		return t
+	}
+	if r, ok := c.subst[t]; ok {
+		return r
+	}
+	return t
+}
+
+// LearnEq records t == k (k constant) for later term construction, with simple linear inversion.
+func (c *Ctx) LearnEq(t, k *Term) {
+	for depth := 0; depth < 8; depth++ {
+		if t.op == OpConst || !k.IsConst() || t.w != k.w {
+			return
+		}
+		if _, ok := c.subst[t]; ok {
+			return
+		}
+		c.subst[t] = k
+		switch t.op {
+		case OpAdd:
+			if t.args[1].IsConst() {
+				t, k = t.args[0], c.foldBin(OpSub, k, t.args[1])
+				continue
+			}
+			if t.args[0].IsConst() {
+				t, k = t.args[1], c.foldBin(OpSub, k, t.args[0])
+				continue
+			}
+		case OpSub:
+			if t.args[0].IsConst() {
+				t, k = t.args[1], c.foldBin(OpSub, t.args[0], k)
+				continue
+			}
+		case OpZExt:
+			x := t.args[0]
+			if k.big == nil && k.k <= mask(x.w) {
+				t, k = x, c.BV(k.k, x.w)
+				continue
+			}
+		}
+		return
+	}
 }
 
 // ResetPath drops all non-constant terms (called between paths).
@@ -97,6 +211,8 @@ func (c *Ctx) ResetPath() {
 	c.nextID = 0
 	c.vars = nil
 	c.ufs = map[string]string{}
+	c.ufIDs = map[string]int32{}
+	c.subst = map[*Term]*Term{}
 }
 
 func (c *Ctx) mk(t *Term) *Term {
@@ -213,6 +329,7 @@ func (t *Term) Sint() int64 {
 }
 
 func (c *Ctx) Not(a *Term) *Term {
+	a = c.norm(a)
 	if a.IsConst() {
 		return c.Bool(a.k == 0)
 	}
@@ -223,6 +340,7 @@ func (c *Ctx) Not(a *Term) *Term {
 }
 
 func (c *Ctx) And(a, b *Term) *Term {
+	a, b = c.norm(a), c.norm(b)
 	if a.IsConst() {
 		if a.k == 0 {
 			return c.False
@@ -245,6 +363,7 @@ func (c *Ctx) And(a, b *Term) *Term {
 }
 
 func (c *Ctx) Or(a, b *Term) *Term {
+	a, b = c.norm(a), c.norm(b)
 	if a.IsConst() {
 		if a.k == 1 {
 			return c.True
@@ -269,6 +388,7 @@ func (c *Ctx) Or(a, b *Term) *Term {
 func (c *Ctx) Implies(a, b *Term) *Term { return c.Or(c.Not(a), b) }
 
 func (c *Ctx) Eq(a, b *Term) *Term {
+	a, b = c.norm(a), c.norm(b)
 	if a.w != b.w {
 		panic(fmt.Sprintf("Eq sort mismatch %d %d", a.w, b.w))
 	}
@@ -311,6 +431,7 @@ func (c *Ctx) Eq(a, b *Term) *Term {
 }
 
 func (c *Ctx) Ite(cond, a, b *Term) *Term {
+	cond, a, b = c.norm(cond), c.norm(a), c.norm(b)
 	if a.w != b.w {
 		panic(fmt.Sprintf("Ite sort mismatch %d %d", a.w, b.w))
 	}
@@ -482,6 +603,7 @@ func isZero(t *Term) bool {
 }
 
 func (c *Ctx) Bin(op Op, a, b *Term) *Term {
+	a, b = c.norm(a), c.norm(b)
 	if a.w != b.w {
 		panic(fmt.Sprintf("Bin %s sort mismatch %d %d", opNames[op], a.w, b.w))
 	}
@@ -588,7 +710,18 @@ func (c *Ctx) Bin(op Op, a, b *Term) *Term {
 				return c.Concat(c.Extract(a, a.w-1-sh, 0), c.BV(0, sh))
 			}
 		}
+	case OpSDiv, OpSRem:
+		// non-negative small dividend and positive constant divisor: unsigned, narrow
+		if b.IsConst() && b.big == nil && a.w <= 64 && b.Sint() > 0 && a.w > 1 && c.ub(a) < uint64(1)<<uint(a.w-1) {
+			if op == OpSDiv {
+				return c.Bin(OpUDiv, a, b)
+			}
+			return c.Bin(OpURem, a, b)
+		}
 	case OpUDiv:
+		if r := c.narrowDiv(op, a, b); r != nil {
+			return r
+		}
 		if b.IsConst() && b.big == nil && b.k != 0 && b.k&(b.k-1) == 0 {
 			sh := 0
 			for (uint64(1) << uint(sh)) != b.k {
@@ -600,12 +733,18 @@ func (c *Ctx) Bin(op Op, a, b *Term) *Term {
 		if b.IsConst() && b.big == nil && b.k != 0 && b.k&(b.k-1) == 0 {
 			return c.Bin(OpBvAnd, a, c.BV(b.k-1, a.w))
 		}
+		if r := c.narrowDiv(op, a, b); r != nil {
+			return r
+		}
 	case OpUlt:
 		if a == b {
 			return c.False
 		}
 		if isZero(b) {
 			return c.False
+		}
+		if b.IsConst() && b.big == nil && a.w <= 64 && c.ub(a) < b.k {
+			return c.True
 		}
 		// zext(x) < k where k > max(x)
 		if b.IsConst() && b.big == nil && a.op == OpZExt && a.args[0].w < 64 && b.k > mask(a.args[0].w) {
@@ -616,6 +755,9 @@ func (c *Ctx) Bin(op Op, a, b *Term) *Term {
 			return c.True
 		}
 		if isZero(a) {
+			return c.True
+		}
+		if b.IsConst() && b.big == nil && a.w <= 64 && c.ub(a) <= b.k {
 			return c.True
 		}
 		if b.IsConst() && b.big == nil && a.op == OpZExt && a.args[0].w < 64 && b.k >= mask(a.args[0].w) {
@@ -657,7 +799,109 @@ func (c *Ctx) signedZextCmp(op Op, a, b *Term) *Term {
 	return nil
 }
 
+// narrowDiv computes an unsigned division/remainder by a constant in a width that just fits
+// the known upper bound of the dividend (bit-blasting a 64-bit divider is what makes z3 slow).
+func (c *Ctx) narrowDiv(op Op, a, b *Term) *Term {
+	if !b.IsConst() || b.big != nil || b.k == 0 || a.w > 64 || a.w <= 12 {
+		return nil
+	}
+	u := c.ub(a)
+	k := 1
+	for k < 64 && (uint64(1)<<uint(k)) <= u {
+		k++
+	}
+	if b.k > u {
+		if op == OpUDiv {
+			return c.BV(0, a.w)
+		}
+		return a
+	}
+	for (uint64(1) << uint(k)) <= b.k {
+		k++
+	}
+	if k+4 >= a.w {
+		return nil
+	}
+	na := c.Extract(a, k-1, 0)
+	r := c.mkBin(op, na, c.BV(b.k, k))
+	return c.ZExt(r, a.w)
+}
+
+func (c *Ctx) mkBin(op Op, a, b *Term) *Term {
+	if a.IsConst() && b.IsConst() {
+		return c.foldBin(op, a, b)
+	}
+	return c.mk(&Term{op: op, w: a.w, args: []*Term{a, b}})
+}
+
+// ub: an unsigned upper bound of the value of t (w <= 64).
+func (c *Ctx) ub(t *Term) uint64 {
+	if t.ubOK {
+		return t.ubv
+	}
+	m := mask(t.w)
+	u := m
+	switch t.op {
+	case OpConst:
+		if t.big == nil {
+			u = t.k
+		}
+	case OpZExt:
+		if t.args[0].w <= 64 {
+			u = c.ub(t.args[0])
+		}
+	case OpIte:
+		u = max(c.ub(t.args[1]), c.ub(t.args[2]))
+	case OpAdd:
+		x, y := c.ub(t.args[0]), c.ub(t.args[1])
+		if s := x + y; s >= x && s <= m {
+			u = s
+		}
+	case OpMul:
+		x, y := c.ub(t.args[0]), c.ub(t.args[1])
+		if x == 0 || y == 0 {
+			u = 0
+		} else if p := x * y; p/x == y && p <= m {
+			u = p
+		}
+	case OpBvAnd:
+		u = min(c.ub(t.args[0]), c.ub(t.args[1]))
+	case OpURem:
+		if b := t.args[1]; b.IsConst() && b.big == nil && b.k > 0 {
+			u = min(c.ub(t.args[0]), b.k-1)
+		}
+	case OpUDiv:
+		if b := t.args[1]; b.IsConst() && b.big == nil && b.k > 0 {
+			u = c.ub(t.args[0]) / b.k
+		}
+	case OpLShr:
+		u = c.ub(t.args[0])
+	case OpExtract:
+		lo := int(t.k & 0xffffffff)
+		if lo == 0 && t.args[0].w <= 64 {
+			u = min(c.ub(t.args[0]), m)
+		}
+	case OpConcat:
+		if isZero(t.args[0]) {
+			u = c.ub(t.args[1])
+		}
+	case OpUF:
+		if tab, ok := c.luts[t.name]; ok {
+			u = 0
+			for _, v := range tab {
+				u = max(u, v)
+			}
+		}
+	}
+	if t.w == 0 {
+		u = 1
+	}
+	t.ubv, t.ubOK = u, true
+	return u
+}
+
 func (c *Ctx) BvNot(a *Term) *Term {
+	a = c.norm(a)
 	if a.IsConst() {
 		if a.big != nil {
 			m := new(big.Int).Sub(new(big.Int).Lsh(big.NewInt(1), uint(a.w)), big.NewInt(1))
@@ -676,6 +920,7 @@ func (c *Ctx) Neg(a *Term) *Term {
 }
 
 func (c *Ctx) Extract(a *Term, hi, lo int) *Term {
+	a = c.norm(a)
 	if hi < lo || hi >= a.w || lo < 0 {
 		panic(fmt.Sprintf("Extract bad range %d %d of %d", hi, lo, a.w))
 	}
@@ -729,6 +974,7 @@ func (c *Ctx) Extract(a *Term, hi, lo int) *Term {
 }
 
 func (c *Ctx) Concat(h, l *Term) *Term {
+	h, l = c.norm(h), c.norm(l)
 	if h.IsConst() && l.IsConst() {
 		v := new(big.Int).Lsh(h.bigVal(), uint(l.w))
 		v.Or(v, l.bigVal())
@@ -749,6 +995,7 @@ func (c *Ctx) Concat(h, l *Term) *Term {
 }
 
 func (c *Ctx) ZExt(a *Term, w int) *Term {
+	a = c.norm(a)
 	if w == a.w {
 		return a
 	}
@@ -765,6 +1012,7 @@ func (c *Ctx) ZExt(a *Term, w int) *Term {
 }
 
 func (c *Ctx) SExt(a *Term, w int) *Term {
+	a = c.norm(a)
 	if w == a.w {
 		return a
 	}
